@@ -389,6 +389,26 @@ func runC19(r *Run) {
 				}
 			}
 		}
+		// what is stored as prefix / suffix is cut at the wildcard's position, not at some other integer in scope
+		for _, fr := range fieldRefs(f) {
+			if !fr.Write || !strings.HasSuffix(fr.Name, "subdomain.prefix") && !strings.HasSuffix(fr.Name, "subdomain.suffix") {
+				continue
+			}
+			sl, ok := stripValue(fr.Val).(*ssa.Slice)
+			if !ok {
+				continue
+			}
+			bound, which := sl.High, "prefix"
+			if strings.HasSuffix(fr.Name, ".suffix") {
+				bound, which = sl.Low, "suffix"
+			}
+			if bound == nil {
+				continue
+			}
+			if v, _ := splitOffset(bound); v != ssa.Value(idx) {
+				bad = append(bad, fmt.Sprintf("%s: the stored %s is cut at a position that is not derived from where the wildcard was found (another integer in scope, e.g. the entry's index in the list): what an entry matches then depends on its place in AllowOrigins — `https://*.example.com` as first entry gets the prefix `htt` and allows http://app.example.com", r.pos(sl), which))
+			}
+		}
 		// the split written with strings.Cut: the part before the separator does not contain it, so a prefix taken
 		// from it must get the separator back; the part after "://" starts at the '.' the wildcard left behind
 		var cutBad []string
